@@ -59,9 +59,24 @@ ALL_REPS = tuple("ti:" + f for f in TI_FORMS) + TD_REPS
 # requested times are t0 + OFFSETS[i]; index 5 is the INTEGER 1 (+ t0)
 OFFSETS = (0.2, 0.5, 0.1, 0.0, -0.15, 1)
 NPFLOAT = 6  # pseudo index: numpy.float64(t0 + 0.35)
+# pseudo indices 7/8: ONE LONG HOP (and a short hop beyond it).  Its length is
+# K / max|eig(H)| with K chosen (measured on the unchanged tree, seeds 0-2, all
+# configurations of the 'longhop' group) so that the dop853 / dopri5 stepper
+# needs clearly more than scipy's DEFAULT cap of 500 internal steps per
+# integrate() call - quimb lifts that cap with nsteps=0, and a hop that is
+# silently cut short only shows when a single hop is that long.
+LONG = 7
+LONGPLUS = 8
+LONG_K = {(False, False): 800.0, (False, True): 640.0, (True, False): 190.0, (True, True): 250.0}  # (int_small_step, density operator)
+LONG_MIN_STEPS = 600
 
 # integrator tolerance of scipy's dopri5/dop853 as set up by quimb: rtol 1e-6
 INT_TOL = 20 * 1e-6  # DESIGN: "ODE accuracy only to 20x the integrator tolerance"
+# histories containing a long hop (700 - 2500 adaptive steps): every accepted
+# step has a local error <= rtol (1e-6) in scipy's scaled norm and unitary flow
+# does not amplify it, so N steps accumulate at most ~N * rtol; 3000 * 1e-6.
+# Measured on the unchanged tree: <= 1e-4 (about 3e-8 per step).
+INT_TOL_LONG = 3000 * 1e-6
 EXACT_TOL = 1e-9
 
 
@@ -84,10 +99,25 @@ def _resolved_method(cfg):
     return "solve" if _form(cfg) in ("solved", "solvedlist") else cfg.method
 
 
+def _long_T(cfg):
+    ref = _get_ref(cfg)
+    return round(LONG_K[(bool(cfg.small), _isdop(cfg))] / float(np.max(np.abs(ref.w))), 3)
+
+
 def _time(cfg, idx):
     if idx == NPFLOAT:
         return np.float64(cfg.t0 + 0.35)
+    if idx == LONG:
+        return cfg.t0 + _long_T(cfg)
+    if idx == LONGPLUS:
+        return cfg.t0 + _long_T(cfg) + 0.5
     return cfg.t0 + OFFSETS[idx]
+
+
+def _is_long(e):
+    if e[0] == "update_to":
+        return e[1] in (LONG, LONGPLUS)
+    return e[0] == "at_times" and any(i in (LONG, LONGPLUS) for i in e[1])
 
 
 # --------------------------------------------------------------------------- #
@@ -263,6 +293,7 @@ class World:
         self.n_updates_ok = 0
         self.went_back = False
         self.stopped = False
+        self.long = False  # history contains a long hop
 
 
 def _mk_state(cfg, ref):
@@ -436,7 +467,7 @@ def _dense_state(x):
 def _tol(w):
     m = _resolved_method(w.cfg)
     if m == "integrate" or m not in METHODS:
-        return INT_TOL
+        return INT_TOL_LONG if w.long else INT_TOL
     return EXACT_TOL
 
 
@@ -728,6 +759,8 @@ class C18Case(seq.Case):
         subs = []
         n_before = len(w.rec)
         w.hist.append(e)
+        if _is_long(e):
+            w.long = True
         with _watch(w.hist[:-1], e), contextlib.redirect_stderr(io.StringIO()):
             if e[0] == "update_to":
                 t = _time(cfg, e[1])
@@ -854,6 +887,10 @@ class C18Case(seq.Case):
     def nontrivial(self, w, e, obs):
         if obs["kind"] == "new":
             return False
+        if _is_long(e) and w.cfg.cb != "none" and not any(s[0] == s[1] for s in obs["subs"][-1:]):
+            # a long hop only counts when it really took more than the
+            # default step cap (one callback record per accepted step)
+            return len(w.rec) - obs["n_before"] >= LONG_MIN_STEPS
         return any(s[3] is not None and abs(s[2] - s[1]) > 1e-6 for s in obs["subs"])
 
     def outcome(self, w, e, obs):
@@ -864,7 +901,12 @@ class C18Case(seq.Case):
         mv = "empty"
         if subs:
             mv = "+".join("fwd" if s[0] > s[1] else "back" if s[0] < s[1] else "same" for s in subs)
-        return "%s|%s|%s|%s|%s" % (_resolved_method(cfg), "dop" if _isdop(cfg) else "ket", cfg.ham, e[0], mv)
+        kind = e[0]
+        if _is_long(e):
+            kind += ":longhop"
+            if cfg.cb != "none":
+                kind += ":steps~%d00" % ((len(w.rec) - obs["n_before"]) // 100)
+        return "%s|%s|%s|%s|%s" % (_resolved_method(cfg), "dop" if _isdop(cfg) else "ket", cfg.ham, kind, mv)
 
 
 def _dimension_problem(cfg, e, exc, other_d, w):
@@ -908,6 +950,19 @@ class _Plain:
 
 def make_case(spec):
     return C18Case(spec)
+
+
+def longhop_probe(cfg_t, common):
+    """Worker: one long hop with a counting callback -> number of accepted
+    integrator steps (evidence that the hop exceeds scipy's default cap)."""
+    cfg = Cfg(*cfg_t)._replace(cb="f2")
+    w = World()
+    case = _Plain()
+    case.apply(w, _new_event(cfg))
+    t = _time(cfg, LONG)
+    with contextlib.redirect_stderr(io.StringIO()):
+        w.evo.update_to(t)
+    return {"cfg": list(cfg_t), "T": _long_T(cfg), "steps": len(w.rec) - 1, "reached": bool(w.evo.t == t)}
 
 
 # --------------------------------------------------------------------------- #
@@ -979,6 +1034,14 @@ def group_configs(group, tier):
             out.append(_cfg(method=m, state=st, ham=rep, stop=stop, prog=prog, cb=cb))
         for st, rep in itertools.product(STATES, ("ti:qarray", "ti:solved", "tdnc:qarray")):
             out.append(_cfg(method="bad", state=st, ham=rep))
+    elif group == "longhop":
+        # one hop that needs > 500 internal integrator steps (see LONG)
+        if th:
+            axes = (STATES, ("ti:qarray", "ti:csr", "ti:linop", "tdcomm:qarray", "tdcomm:csr"), (False, True), ("none", "f2"), (0, 0.3), (3, 4), ("complex", "real"))
+        else:
+            axes = (("ket", "dop_mixed"), ("ti:qarray", "ti:csr", "tdcomm:qarray"), (False, True), ("none", "f2"), (0.3,), (3,), ("complex",))
+        for st, rep_, sm, cb, t0, d, hdt in itertools.product(*axes):
+            out.append(_cfg(method="integrate", state=st, ham=rep_, small=sm, cb=cb, t0=t0, d=d, hdt=hdt))
     else:
         raise KeyError(group)
     # complete, duplicate free, order rotated by the seed only
@@ -992,6 +1055,11 @@ def group_configs(group, tier):
 
 def group_events(group, tier):
     th = tier == "thorough"
+    if group == "longhop":
+        ev = [("update_to", 0), ("update_to", LONG)]
+        if th:
+            ev += [("at_times", (0, LONG)), ("update_to", LONGPLUS)]
+        return ev
     if th:
         upd = [("update_to", i) for i in (0, 1, 2, 3, 4, 5, NPFLOAT)]
         att = [("at_times", (0, 1)), ("at_times", (2, 0, 1)), ("at_times", (1, 1)), ("at_times", (1, 2)), ("at_times", ()), ("at_times", (0, 1), "np"), ("at_times", (4, 3, 5))]
@@ -1004,12 +1072,14 @@ def group_events(group, tier):
     return upd + att
 
 
-GROUPS = ("core-solve-ket", "core-solve-dop", "core-expm-ket", "core-expm-dop", "core-integrate-ket", "core-integrate-dop_pure", "core-integrate-dop_mixed", "callbacks", "forms", "plumbing")
+GROUPS = ("core-solve-ket", "core-solve-dop", "core-expm-ket", "core-expm-dop", "core-integrate-ket", "core-integrate-dop_pure", "core-integrate-dop_mixed", "callbacks", "forms", "plumbing", "longhop")
 # number of events after the constructor
 
 
 def _depth(group, tier):
     th = tier == "thorough"
+    if group == "longhop":
+        return 2
     if group.startswith("core-integrate"):
         return 5 if th else 3
     if group.startswith("core-"):
@@ -1139,6 +1209,8 @@ def run(ctx):
         "any exception at construction / first update (or a backwards request with integrate/expm) is a rejection ('rejects what it does not support'); it must leave a "
         "correct (t, state) pair behind, and support must not depend on d (differential re-run of the same history at another dimension)",
         "scipy's complex_ode restarts every integrate() from (t, y) with the configured first step, so merging integrate states on (t, y rounded to 1e-9, callback record) keeps the futures",
+        "histories with a long hop (length K/max|eig H|, 700-2500 accepted steps, measured per run in notes.longhop_accepted_steps) are compared at 3e-3 = 3000 steps x rtol 1e-6 (worst case linear "
+        "accumulation of the per-step local error; measured <= 1e-4); the requested time must still be reported exactly",
         "per event CPU watchdog of 60 s (normal: milliseconds) that stops the worker hard -> harness error, exit 2: an exception raised inside scipy's Fortran solout callback can be swallowed by f2py "
         "and turn into an endless integration (seen with a seeded callback-plumbing bug), and a Python-level timeout exception would be swallowed the same way",
         "density operators handed to schrodinger_eq_dop / lindblad_eq are Hermitian (documented assumption of those two); the vectorised forms also get a generic matrix",
@@ -1162,6 +1234,14 @@ def run(ctx):
     if ctx.opts.get("only", "rhs") == "rhs":
         table.run(ctx, "rhs_cell", rhs_cells(tier), name="rhs: equation x Hamiltonian form x d x input kind x Lindblad ops")
         ctx.subproducts.append("right-hand sides: equation x Hamiltonian form x d x dtype x input kind x (0..3 Lindblad operators x dense/sparse) complete")
+    if "longhop" in groups:
+        probe_cfgs = sorted({tuple(Cfg(*c)._replace(cb="none")) for c in group_configs("longhop", tier)}, key=repr)
+        pr = ctx.pmap("longhop_probe", probe_cfgs)
+        steps = [r["steps"] for r in pr]
+        ctx.notes["longhop_accepted_steps"] = {"min": min(steps), "max": max(steps), "scipy_default_cap": 500, "hop_length_min": min(r["T"] for r in pr), "hop_length_max": max(r["T"] for r in pr), "configs": len(pr)}
+        short = [r for r in pr if r["reached"] and r["steps"] < LONG_MIN_STEPS]
+        if short:
+            raise core.HarnessError("long hop reached its time in only %d accepted steps (< %d): it would not exceed scipy's default cap of 500 - recalibrate LONG_K; %r" % (short[0]["steps"], LONG_MIN_STEPS, short[0]))
     for g in groups:
         seq.explore(ctx, {"group": g, "tier": tier}, 1 + depths[g], label=g)
         ctx.subproducts.append("%s: %d configurations x all event histories of length <= %d over %d events complete" % (g, len(group_configs(g, tier)), depths[g], len(group_events(g, tier))))
